@@ -5,6 +5,7 @@ import (
 	"io"
 	"regexp"
 	"strings"
+	"unicode/utf8"
 
 	"github.com/elliotchance/gedcom/v39"
 	"github.com/elliotchance/gedcom/v39/html/core"
@@ -171,7 +172,17 @@ func isReservedPageKey(key string) bool {
 		return true
 	}
 
-	return strings.HasPrefix(key, "individuals-")
+	// The index pages are "individuals-" followed by a single letter or
+	// "symbol". Anything longer (like the individual "Individuals Smith") is not
+	// one of them, and must not be treated as one or no suffix would ever make
+	// the key acceptable.
+	if !strings.HasPrefix(key, "individuals-") {
+		return false
+	}
+
+	letter := strings.TrimPrefix(key, "individuals-")
+
+	return letter == "symbol" || utf8.RuneCountInString(letter) == 1
 }
 
 func getUniqueKey(individualMap map[string]*gedcom.IndividualNode, s string, placesMap map[string]*place) string {
